@@ -99,6 +99,30 @@ def sym_generators(name="g"):
     return SymArr(factory)
 
 
+def replay_right_loc(ob=None):
+    """HalfSpace::right_loc on the real crate: a neighbour plane must give generator + shift, a wall the mirror image of the left generator."""
+    import random
+    from ..runner import replay_requests
+    rng = random.Random(20260930)
+    reqs, want = [], []
+    for t in range(60):
+        gens = [[rng.uniform(-2, 2) for _ in range(3)] for _ in range(3)]
+        if t % 2 == 0:
+            sh = [rng.choice([-1.5, 0.0, 1.5]) for _ in range(3)] if t % 4 == 0 else None
+            reqs.append({"op": "right_loc", "gens": gens, "n": [1.0, 0.0, 0.0], "p": [0.0, 0.0, 0.0], "right": 1, "shift": sh, "left": 0})
+            want.append([gens[1][i] + (sh[i] if sh else 0.0) for i in range(3)])
+        else:
+            ax = rng.randrange(3); s_ = rng.choice([-1.0, 1.0]); wall = rng.uniform(-3, 3)
+            n = [s_ if i == ax else 0.0 for i in range(3)]; p = [rng.uniform(-3, 3) if i != ax else wall for i in range(3)]
+            reqs.append({"op": "right_loc", "gens": gens, "n": n, "p": p, "right": None, "shift": None, "left": 0})
+            want.append([gens[0][i] if i != ax else 2 * wall - gens[0][i] for i in range(3)])
+    bad = []
+    for rq, w_, a in zip(reqs, want, replay_requests(reqs, timeout=120)):
+        r = a.get("r")
+        if r is None or max(abs(r[i] - w_[i]) for i in range(3)) > 1e-9: bad.append({"request": rq, "real": a, "expected": w_})
+    return {"reproduced": bool(bad), "runs": bad[:2], "what": "HalfSpace::right_loc: neighbour position != generator + shift, or wall image != mirror image"}
+
+
 def right_loc_obligations(prefix):
     """HalfSpace::right_loc: neighbour position = generator (+ shift); for a wall, the mirror image of the left generator."""
     u, b, ctx, pre, A, W, per, dim = sym_cuboid()
@@ -135,6 +159,8 @@ def right_loc_obligations(prefix):
     gl = gens.memo[ridx].f["loc"]
     obs.append(Obligation(prefix + ".right_loc.neighbour_is_generator_plus_shift", c3.assume + c3.ok,
                           veq(r, Vec([Ite(hs.f["shift"].some, gl.c[i] + sh.c[i], gl.c[i]) for i in range(3)])), ur.label))
+    for o_ in obs:
+        if not o_.expect_sat and o_.replay is None: o_.replay = replay_right_loc
     return obs, [ur]
 
 
